@@ -188,7 +188,60 @@ func structToMap(data any, onPath map[uintptr]bool) map[string]any {
 
 		result[tagName] = fieldValue
 	}
+	addPromotedFields(result, rv, onPath)
 	return result
+}
+
+// addPromotedFields adds the exported fields that embedded structs promote into rv (what a Go
+// selector and Lookup reach as x.Field) under their names or JSON tags. Names the struct
+// itself already provides are kept.
+func addPromotedFields(result map[string]any, rv reflect.Value, onPath map[uintptr]bool) {
+	for _, f := range reflect.VisibleFields(rv.Type()) {
+		if len(f.Index) < 2 || !f.IsExported() {
+			continue
+		}
+		tagName, _, _ := strings.Cut(f.Tag.Get("json"), ",")
+		if f.Anonymous && tagName == "" {
+			continue
+		}
+		if tagName == "" {
+			tagName = f.Name
+		}
+		if _, own := result[tagName]; own {
+			continue
+		}
+		fv, err := rv.FieldByIndexErr(f.Index)
+		if err != nil || !fv.CanInterface() {
+			// below a nil embedded pointer: absent
+			continue
+		}
+		fieldValue := fv.Interface()
+		if fv.Kind() == reflect.Struct || (fv.Kind() == reflect.Ptr && !fv.IsNil() && fv.Type().Elem().Kind() == reflect.Struct) {
+			fieldValue = structToMap(fieldValue, onPath)
+		}
+		result[tagName] = fieldValue
+	}
+}
+
+// StringKeyedMap copies a map with string keys of any map type (map[string]string, a named map
+// type, a pointer to one) into a map[string]any. ok is false for every other value.
+func StringKeyedMap(data any) (map[string]any, bool) {
+	rv := reflect.ValueOf(data)
+	for rv.IsValid() && rv.Kind() == reflect.Ptr {
+		if rv.IsNil() {
+			return nil, false
+		}
+		rv = rv.Elem()
+	}
+	if !rv.IsValid() || rv.Kind() != reflect.Map || rv.Type().Key().Kind() != reflect.String {
+		return nil, false
+	}
+	out := make(map[string]any, rv.Len())
+	iter := rv.MapRange()
+	for iter.Next() {
+		out[iter.Key().String()] = iter.Value().Interface()
+	}
+	return out, true
 }
 
 // PopulateStructFields adds exported struct fields to the map using JSON tags.
@@ -248,6 +301,15 @@ func PopulateStructFields(m map[string]any, data any) {
 
 		// Add the field itself (for path resolution like item.inStock)
 		m[tagName] = fieldValue
+	}
+
+	// ... and the fields promoted from embedded structs, which Lookup finds too
+	promoted := map[string]any{}
+	addPromotedFields(promoted, rv, map[uintptr]bool{})
+	for k, v := range promoted {
+		if _, own := m[k]; !own {
+			m[k] = v
+		}
 	}
 }
 
